@@ -157,6 +157,8 @@ class FitsTiler(object):
 
                 if os.path.exists(os.path.join(self.out_dir, "properties")):
                     self._copy_hips_properties_to_builder()
+                else:
+                    self._load_builder_from_index()
 
                 return
 
@@ -396,6 +398,32 @@ class FitsTiler(object):
             os.symlink(src=absolute_path, dst=link_path)
 
         return dir
+
+    def _load_builder_from_index(self):
+        """
+        When reusing an existing output directory, restore the description of
+        the data set from the ``index_rel.wtml`` file that was written when the
+        tiles were generated.
+        """
+        from wwt_data_formats.folder import Folder
+        from wwt_data_formats.imageset import ImageSet
+        from wwt_data_formats.place import Place
+
+        index_path = os.path.join(self.out_dir, "index_rel.wtml")
+
+        if not os.path.exists(index_path):
+            raise Exception(
+                f"cannot reuse tile directory `{self.out_dir}`: it has no `index_rel.wtml`; "
+                "use `override=True` to regenerate it"
+            )
+
+        for item in Folder.from_file(index_path).children:
+            if isinstance(item, Place):
+                self.builder.place = item
+                self.builder.imgset = item.foreground_image_set
+            elif isinstance(item, ImageSet):
+                self.builder.imgset = item
+                self.builder.place.foreground_image_set = item
 
     def _copy_hips_properties_to_builder(self):
         hips_properties = dict()
